@@ -608,14 +608,34 @@ Proof.
       rewrite <- (lblk_ceqv _ _ _ N7), <- (rblk_ceqv _ _ _ N7) in N6. rewrite Lt in N6. congruence.
 Qed.
 
+Lemma mr_roots_ok_S f s l c :
+  mr_roots_ok (S f) s l c =
+  (out_root_ok s l c /\
+   match c with
+   | None => True
+   | Some c0 =>
+       if Qltb (sslack (snote_slack TIE_EPS s c0 0) c0) 0 then
+         match mr_body (snote_slack TIE_EPS s c0 0) l c0 with
+         | Ok (s', l', c') => mr_roots_ok f s' l' c'
+         | _ => True
+         end
+       else True
+   end).
+Proof. reflexivity. Qed.
+Lemma neg_of_Qltb s c : Qltb (sslack s c) 0 = true -> slack_val (base s) c < 0.
+Proof. intros Q. apply Qltb_spec in Q. exact Q. Qed.
+
 Lemma MRH_roots : forall fuel s l c, MRH s l c -> mr_roots_ok fuel s l c.
 Proof.
-  induction fuel as [|f IH]; intros s l c M; cbn [mr_roots_ok]; [exact I|].
+  induction fuel as [|f IH]; intros s l c M; [exact I|].
+  rewrite mr_roots_ok_S.
   split; [apply MRH_root; exact M|]. destruct c as [c0|]; [|exact I].
-  set (s0 := snote_slack TIE_EPS s c0 0).
+  pose proof (MRH_snote TIE_EPS s l (Some c0) c0 0 M) as M0.
+  remember (snote_slack TIE_EPS s c0 0) as s0 eqn:Es0. clear Es0 M.
   destruct (Qltb (sslack s0 c0) 0) eqn:Q; [|exact I].
   destruct (mr_body s0 l c0) as [[[s' l'] c']| |] eqn:E; try exact I.
-  apply IH. apply (mr_body_MRH s0 l c0 s' l' c'); [apply MRH_snote; exact M | apply Qltb_spec in Q; exact Q | exact E].
+  apply IH. pose proof (neg_of_Qltb s0 c0 Q) as Hneg.
+  exact (mr_body_MRH s0 l c0 s' l' c' M0 Hneg E).
 Qed.
 
 (* entering mergeRight: setUpOutConstraints + findMinOutConstraint establish the invariant *)
